@@ -303,7 +303,23 @@ func (g *ogen) node(d int, allowFail bool) onode {
 		g.ctxOK = false // most of these loops rebind '.'
 		body := g.seq(d-1, false)
 		g.ctxOK = savedCtx
-		switch r.Intn(5) {
+		switch r.Intn(6) {
+		case 5:
+			// an empty range that took its else branch has no influence on the ranges after it: an outer
+			// and an inner range over collections of the same kind still run once per element each
+			// (slices in slices, maps in maps - whatever an implementation pools per kind)
+			out := g.E("e")
+			src := "{{range " + r.Pick([]string{"el", "li[1:1]", "nl"}) + "}}DEAD{{else}}{{\"e\"}}{{end}}"
+			if r.Chance(30) {
+				// (map order is Go's: only the number of rounds is predictable)
+				src = "{{range nm}}DEAD{{else}}{{\"e\"}}{{end}}{{range k, v := ms}}<{{range k2, v2 := ms}}m{{end}}>{{end}}"
+				return onode{src: src, out: out + "<mmm><mmm><mmm>", failOff: -1}
+			}
+			src += "{{range i, x := li}}<{{x}}:{{range j, y := ls}}{{j}}{{end}}" + body.src + ">{{end}}"
+			for _, x := range []int{3, 0, 7} {
+				out += "<" + g.E(x) + ":" + g.E(0) + g.E(1) + g.E(2) + body.out + ">"
+			}
+			return onode{src: src, out: out, failOff: -1}
 		case 0:
 			out := ""
 			src := "{{range i, x := li}}[{{i}}:{{x}}]" + body.src + "{{end}}"
